@@ -19,6 +19,6 @@ one() {
   git -C /repo worktree remove --force $WT; rm -rf /tmp/seedmx/ev-$s
 }
 export -f one; export props
-echo $seeds | tr ' ' '\n' | xargs -P 5 -I{} bash -c 'one {}' > seeded/MATRIX.tsv.tmp
+echo $seeds | tr ' ' '\n' | xargs -P 7 -I{} bash -c 'one {}' > seeded/MATRIX.tsv.tmp
 sort seeded/MATRIX.tsv.tmp > seeded/MATRIX.tsv; rm seeded/MATRIX.tsv.tmp
 echo "wrote seeded/MATRIX.tsv ($(wc -l < seeded/MATRIX.tsv) rows)"
